@@ -8,6 +8,7 @@ import Vita.C11.FloatImpl
 
     save <type> <ints…>      -> <hex of the model's save> | bad-op
     load <type> <hex>        -> ok <ints…> | <hex of the unread rest>   or   fail
+    resave lam <hex> <ctx…>  -> ok <hex of save (load bytes)>                 or   fail
 
   Objects travel as flat lists of integers (doubles as their 64-bit patterns):
     hash  d0 d1                      fit  n b…            iga  age n g…        ide  age n b…
@@ -250,6 +251,12 @@ def answer (line : String) : String :=
   | "load" :: ty :: hx :: ctx =>
     match fromHex hx, ctx.mapM String.toInt? with
     | some s, some c => (doLoad ty s c).getD "bad-op"
+    | _, _ => "bad-op"
+  | "resave" :: "lam" :: hx :: ctx =>
+    match fromHex hx, ctx.mapM String.toInt? with
+    | some s, some c => match Lambda.load fio (decTab c) s with
+      | none => "fail"
+      | some (x, _) => "ok " ++ toHex (Lambda.save fio x)
     | _, _ => "bad-op"
   | ["fmt", b] => match b.toNat? with
     | some n => toHex (FloatImpl.fmt17 n)
